@@ -541,6 +541,13 @@ func HarnessC01Float() {
 		f := []float64{2.5, 0.5, -1.5, 0, -0.25, 1e21, 3}[vChoice("f", 7)]
 		data["f"] = f
 		if vChoice("dir", 2) == 0 {
+			// x++ is the plain double x + 1.0, also where that sum is not the shortest decimal (0.57 + 1.0 is
+			// 1.5699999999999998); x-- keeps the operand's number of decimals in the implementation, which the
+			// suite pins (4.4-- is 3.4), so only exactly representable operands are used for it
+			if g := vChoice("inexact", 5); g > 0 {
+				f = []float64{0.57, 0.14, 0.93, -0.36}[g-1]
+				data["f"] = f
+			}
 			src, want = "f++", rF(f+1)
 		} else {
 			src, want = "f--", rF(f-1)
